@@ -1,6 +1,6 @@
 """Minecraft Java edition (Server List Ping over TCP): how the generic property runners drive it."""
 
-FAMILY = dict(
+FAMILY = dict(send_units=3, 
     name="mcjava", nargs=4, gen="mcjava", retries=3, port=0, decode_property="C03", entry="mcjava",
     describe=("status JSON written by a varied printer (member order, unknown members incl. every number form, null vs absent "
               "optional members, white space, all escape forms, surrogate pairs, nesting up to the parser's recursion limit), "
